@@ -26,6 +26,8 @@ pub fn bre(e: &BitReaderError) -> String {
 }
 
 /// does a Debug rendering of an error mention WouldBlock? (the class the syntax parsers are compared on)
+/// diagnostic mode (`VERIF_FULL_ERR=1`): SPS / PPS / slice errors are printed in full instead of by class
+pub fn err_show<E: std::fmt::Debug>(e: &E) -> String { if std::env::var("VERIF_FULL_ERR").is_ok() { format!("Err {:?}", e) } else { err_class(e).to_string() } }
 pub fn err_class<E: std::fmt::Debug>(e: &E) -> &'static str { if format!("{:?}", e).contains("WouldBlock") { "WouldBlock" } else { "Err" } }
 
 #[derive(Default)]
@@ -273,13 +275,13 @@ impl Runner {
     fn sps(&mut self, d: &[u8]) -> String {
         match SeqParameterSet::from_bits(BitReader::new(d)) {
             Ok(s) => { let t = format!("Ok({:?})", s); self.ctx.put_seq_param_set(s); t }
-            Err(e) => err_class(&e).into(),
+            Err(e) => err_show(&e),
         }
     }
     fn pps(&mut self, d: &[u8]) -> String {
         match PicParameterSet::from_bits(&self.ctx, BitReader::new(d)) {
             Ok(p) => { let t = format!("Ok({:?})", p); self.ctx.put_pic_param_set(p); t }
-            Err(e) => err_class(&e).into(),
+            Err(e) => err_show(&e),
         }
     }
     fn slice_on<R: BufRead + Clone>(&self, hdr: NalHeader, mut br: BitReader<R>) -> String {
